@@ -90,6 +90,7 @@ pub fn base_b1(enc: TextEncoding) -> Automerge {
 /// B2: B1 after a prelude of concurrent edits by two extra actors: conflicts on `a` (int / counter
 /// / object), a conflicted list element, concurrent inserts at the same position, tombstones, a
 /// counter in a conflicted register (winning in list element 0, losing in the last list element),
+/// a text element whose conflict winner was deleted later (its multi-unit loser is exposed),
 /// overlapping marks, a block.
 pub fn base_b2(enc: TextEncoding) -> Automerge {
     let b1 = base_b1(enc);
@@ -108,6 +109,8 @@ pub fn base_b2(enc: TextEncoding) -> Automerge {
         // the last list element becomes a register {counter (lower id), string (higher id, winner)}:
         // the mirror image of element 0, where the counter wins
         tx.put(&lx, 2, automerge::ScalarValue::counter(50))?;
+        // text element 'c' gets a multi-unit value that loses against y's "z" ...
+        tx.put(&tx_, 3, "👨\u{200d}👩\u{200d}👧")?;
         Ok(())
     });
     must(&mut x, |tx| {
@@ -125,14 +128,20 @@ pub fn base_b2(enc: TextEncoding) -> Automerge {
         tx.mark(&ty, Mark::new("link".into(), "u", 0, 2), automerge::marks::ExpandMark::None)?;
         tx.increment(ROOT, "c", 2)?;
         tx.put(&ly, 2, "q")?;
+        tx.put(&ty, 2, "z")?;
         Ok(())
     });
+    let mut y1 = y.clone();
     must(&mut y, |tx| {
         tx.split_block(&ty, 2)?;
+        // ... and y deletes its own "z" without having seen x's value: merged in a later batch, this
+        // exposes the losing multi-unit value (the element comes back with x's value)
+        tx.delete(&ty, 3)?;
         Ok(())
     });
     let mut d = b1;
     d.merge(&mut x).unwrap();
+    d.merge(&mut y1).unwrap();
     d.merge(&mut y).unwrap();
     d
 }
@@ -169,12 +178,19 @@ pub struct World {
     pub docs: Vec<Automerge>,
     pub edits: Vec<u8>,
     pub merges: u8,
+    /// remaining "actor churn" actions, and which replicas went through one (part of the key: a
+    /// churned replica must be explored further even though its heads did not move)
+    pub churn: u8,
+    pub churned: Vec<bool>,
 }
 
 #[derive(Clone, Debug)]
 pub enum HAct {
     Edit(usize, Op),
     Merge(usize, usize),
+    /// an actor that sorts before every other one opens a transaction on the replica and rolls it
+    /// back: the actor is added to and removed from the actor table, nothing else may change
+    Churn(usize),
 }
 
 pub fn doc_key_bytes(d: &Automerge, h: &mut Sha256) {
@@ -218,6 +234,8 @@ pub struct History {
     pub edge_oracle: Option<Box<EdgeOracle>>,
     /// include op columns in the fingerprint (confluence check on internal state)
     pub fp_opcols: bool,
+    /// budget of actor-churn actions (0 = none)
+    pub churn: u8,
 }
 
 impl History {
@@ -234,7 +252,12 @@ impl History {
             state_oracle: None,
             edge_oracle: None,
             fp_opcols: true,
+            churn: 0,
         }
+    }
+    pub fn with_churn(mut self, n: u8) -> Self {
+        self.churn = n;
+        self
     }
     pub fn label(&self, theme: &str) -> String {
         format!("history[{} {} L={:?} M={} {:?}]", theme, self.base_name, self.edits, self.merges, self.enc)
@@ -256,6 +279,8 @@ impl Model for History {
                 docs,
                 edits: self.edits.clone(),
                 merges: self.merges,
+                churn: self.churn,
+                churned: vec![false; self.n],
             },
         )]
     }
@@ -278,6 +303,13 @@ impl Model for History {
                 }
             }
         }
+        if s.churn > 0 {
+            for r in 0..s.docs.len() {
+                if !s.churned[r] {
+                    v.push(HAct::Churn(r));
+                }
+            }
+        }
         v
     }
 
@@ -295,6 +327,27 @@ impl Model for History {
                         Step::Next(n)
                     }
                 }
+            }
+            HAct::Churn(r) => {
+                use automerge::transaction::Transactable;
+                let own = s.docs[*r].get_actor().clone();
+                let mut d = s.docs[*r].clone().with_actor(actor(0x00));
+                {
+                    let mut tx = d.transaction();
+                    if tx.put(automerge::ROOT, "churn", 1).is_err() {
+                        return Step::Disabled;
+                    }
+                    tx.rollback();
+                }
+                d.set_actor(own);
+                if d.get_heads() != s.docs[*r].get_heads() || opcols(&d).ok() != opcols(&s.docs[*r]).ok() {
+                    return Step::Fail(Violation::new("churn-invisible", "rolled-back transaction of a new actor", "a transaction of a new actor that was rolled back changed the heads or the op columns".to_string()));
+                }
+                let mut n = s.clone();
+                n.docs[*r] = d;
+                n.churn -= 1;
+                n.churned[*r] = true;
+                Step::Next(n)
             }
             HAct::Merge(r, q) => {
                 let mut d = s.docs[*r].clone();
@@ -324,9 +377,9 @@ impl Model for History {
         let mut h = Sha256::new();
         for (i, d) in s.docs.iter().enumerate() {
             doc_key_bytes(d, &mut h);
-            h.update([s.edits[i]]);
+            h.update([s.edits[i], s.churned.get(i).copied().unwrap_or(false) as u8]);
         }
-        h.update([s.merges]);
+        h.update([s.merges, s.churn]);
         let mut r = [0u8; 32];
         r.copy_from_slice(&h.finalize());
         r
